@@ -8,7 +8,7 @@ missing) and the check runs with VERIF_REPO=<dir>: /repo and /verif/evidence are
 evaluations can run side by side.  Records exit status and VIOLATION lines in the seed's meta.json under "runs"."""
 import json, os, subprocess, sys, time
 
-BUILD_CHECKS = {"C01", "C02", "C11", "C13", "C14"}      # need the dora toolchain built in the tree they look at
+BUILD_CHECKS = {"C01", "C02", "C09", "C11", "C13", "C14"}      # need the dora toolchain built in the tree they look at
 
 def sh(cmd, **kw):
     return subprocess.run(cmd, shell=True, text=True, capture_output=True, **kw)
